@@ -12,13 +12,27 @@
 # See the License for the specific language governing permissions and
 # limitations under the License.
 import ast
-from typing import List, Tuple
+from typing import List, Tuple, get_args
 
 from sympy import Symbol
 from sympy.logic.boolalg import Boolean
 
 from ..types import TType, TypeErrorException
 from . import Binding, Env, decompose_to_symbols, exceptions, translate_expression
+
+
+def _bit_names(base: str, ttype) -> List[str]:
+    """Return the bit names of a value of type ttype, in the same order of Arg.bitvec"""
+    if ttype == bool:
+        return [base]
+    elif hasattr(ttype, "BIT_SIZE"):
+        return [f"{base}.{i}" for i in range(ttype.BIT_SIZE)]
+    else:
+        return [
+            n
+            for i, t in enumerate(get_args(ttype))
+            for n in _bit_names(f"{base}.{i}", t)
+        ]
 
 
 def translate_statement(  # noqa: C901
@@ -81,6 +95,12 @@ def translate_statement(  # noqa: C901
             raise TypeErrorException(texp, ret_type)
 
         res = decompose_to_symbols(vexp, "_ret")
+
+        # A tuple variable is a flat list of bits: name them following the type structure
+        ret_names = _bit_names("_ret", texp)
+        if len(ret_names) == len(res):
+            res = [(n, x[1]) for n, x in zip(ret_names, res)]
+
         env.bind(Binding("_ret", texp, [x[0] for x in res]))
         res = list(map(lambda x: (Symbol(x[0]), x[1]), res))
         return res, env
